@@ -59,7 +59,7 @@ theorem savezLoad_id_gen (db : Db) (a : List Row) (ha : db.array = some a)
 /-- **saving and loading a database is lossless** -/
 theorem savezLoad_id (db : Db) (a : List Row) (hi : db.Inv) (ha : db.array = some a)
     (hcast : ∀ r ∈ a, ∀ p ∈ r, castVal db.fpType p.2 = p.2) : db.savezLoad = .ok db := by
-  obtain ⟨h1, h2, h3, h4, _⟩ := (C05.inv_some ha).1 hi
+  obtain ⟨h1, h2, h3, h4⟩ := (C05.inv_some ha).1 hi
   exact savezLoad_id_gen db a ha hcast h3 h4 (fun c hc => by rw [h2 c hc, h1])
 
 /-- what `load(savez(db))` is when it succeeds: the rows cast to the dtype, the index rebuilt, the
@@ -98,11 +98,11 @@ theorem savezLoad_inv (db d : Db) (hi : db.Inv) (h : db.savezLoad = .ok d) : d.I
   split at h
   · cases h
   · rename_i a ha
-    obtain ⟨h1, _, _, _, h5⟩ := (C05.inv_some ha).1 hi
+    obtain ⟨h1, _, _, _⟩ := (C05.inv_some ha).1 hi
     split at h
     · rename_i d' heq
       cases h
-      exact C05.fromArray_inv' heq h1 h5
+      exact C05.fromArray_inv' heq h1
     · cases h
 
 /-- saving never fails on a non-empty database satisfying the invariant; what may change is only
@@ -110,7 +110,7 @@ the stored values (cast to the dtype) -/
 theorem savezLoad_succeeds (db : Db) (a : List Row) (hi : db.Inv) (ha : db.array = some a) :
     ∃ d, db.savezLoad = .ok d ∧ d.fpNames = db.fpNames ∧ d.namesMap = db.namesMap ∧ d.props = db.props ∧
       d.array = some (a.map (fun r => r.map (fun p => (p.1, castVal db.fpType p.2)))) := by
-  obtain ⟨h1, h2, h3, h4, _⟩ := (C05.inv_some ha).1 hi
+  obtain ⟨h1, h2, h3, h4⟩ := (C05.inv_some ha).1 hi
   have hlen : ∀ c ∈ db.props, c.2.length = db.fpNames.length := fun c hc => by rw [h2 c hc, h1]
   have e : db.savezLoad = .ok (Db.fromArray a db.bits db.fpNames db.fpType db.level db.name db.props).1 := by
     unfold Db.savezLoad
